@@ -150,6 +150,8 @@ class Ctx:
             return True
         if z3.is_false(cond):
             return False
+        if getattr(self, "no_fork", False):
+            raise HarnessError("the oracle (spec / regions) tried to fork on a symbolic condition: " + str(cond)[:200])
         i = len(self.trace)
         if i < len(self.prefix):
             k = self.prefix[i]
@@ -170,6 +172,8 @@ class Ctx:
         e = z3.simplify(e)
         if z3.is_bv_value(e):
             return e.as_signed_long() if signed else e.as_long()
+        if getattr(self, "no_fork", False):
+            raise HarnessError("the oracle (spec / regions) tried to concretise a symbolic value: " + str(e)[:200])
         while True:
             i = len(self.trace)
             if i < len(self.prefix):
